@@ -1213,6 +1213,61 @@ func delimExceptions(p *Prog, pkg, name string) (open map[rune]bool, offset map[
 	return open, offset
 }
 
+// ruleOTLanguages — R-TAB/otlang: the table mapping language subtags to OpenType language system tags is searched by a
+// hand-written bisection on the language and then read forwards and backwards over equal keys: the keys must be
+// non-decreasing, every key must be a primary language subtag (two or three lower case ASCII letters: anything else can
+// never be asked for, the lookup key being cut at the first '-' of a canonical tag), and every tag is 0 ("no tag": the row
+// only blocks an inheritance) or four printable ASCII bytes.
+func ruleOTLanguages(p *Prog, r *Report, le *litEval, pkg, name, fKey, fTag string, floor int) {
+	const rule = "R-TAB/otlang"
+	lv := le.Var(p.Obj(pkg, name).(*types.Var))
+	if lv.Kind != LList {
+		undecided("P-LIT: %s.%s is not a list literal", pkg, name)
+	}
+	key := pkg + "." + name
+	r.Instance(rule, key)
+	r.Floor(rule+"("+name+")", len(lv.Elems), floor)
+	prev := ""
+	for i, e := range lv.Elems {
+		fk, ft := e.field(fKey), e.field(fTag)
+		if fk == nil || ft == nil {
+			undecided("P-LIT: %s.%s[%d] lacks a field", pkg, name, i)
+		}
+		k, ok := fk.Str()
+		if !ok {
+			undecided("P-LIT: %s.%s[%d].%s is not constant", pkg, name, i, fKey)
+		}
+		t, ok := ft.Int()
+		if !ok {
+			undecided("P-LIT: %s.%s[%d].%s is not constant", pkg, name, i, fTag)
+		}
+		wf := len(k) == 2 || len(k) == 3
+		for _, c := range []byte(k) {
+			if c < 'a' || c > 'z' {
+				wf = false
+			}
+		}
+		if !wf {
+			r.Bad(rule, key, p.Pos(e.Pos), fmt.Sprintf("entry %d has the key %q, which is not a primary language subtag (2 or 3 lower case letters): no language can select it", i, k))
+			return
+		}
+		if k < prev {
+			r.Bad(rule, key, p.Pos(e.Pos), fmt.Sprintf("entry %d (%q) is below entry %d (%q): the bisection misses entries", i, k, i-1, prev))
+			return
+		}
+		prev = k
+		if t != 0 {
+			for sh := 0; sh < 32; sh += 8 {
+				if c := byte(t >> uint(sh)); c < 0x20 || c > 0x7E {
+					r.Bad(rule, key, p.Pos(e.Pos), fmt.Sprintf("entry %d (%q) has the tag %#x, which is not made of four printable ASCII bytes", i, k, t))
+					return
+				}
+			}
+		}
+	}
+	r.OK(rule, key, p.Pos(lv.Pos), fmt.Sprintf("%d entries: keys are primary language subtags in non-decreasing order, tags are 0 or four printable bytes", len(lv.Elems)))
+}
+
 // ruleDelimParity — R-TAB/parity: the table of paired delimiters is consulted by position (even index: opening, odd index:
 // closing, its counterpart at index-1), but for the runes the code itself handles apart (read from the code by
 // delimExceptions, not listed here): no character of general category Ps (opening punctuation) is handled as a closing
